@@ -60,10 +60,11 @@ class Check:
         self.extra = {}
 
     # -- recording
-    def ob(self, rule, ok, where, found, required, key=None, why=None, scope=None):
+    def ob(self, rule, ok, where, found, required, key=None, why=None, scope=None, local=False):
         """where = (file, function, line).  scope: FuncInfo(s) whose whole body the rule read
         (a violated obligation is 'cannot decide' if that body calls a function the rules never read)."""
-        if not ok and getattr(self, "ctx", None) is not None and rule not in getattr(self, "no_downgrade", ()):
+        # local=True: the construct named is wrong whatever the functions around it do (a zero-expected rule that matched)
+        if not ok and not local and getattr(self, "ctx", None) is not None and rule not in getattr(self, "no_downgrade", ()):
             unread = unread_functions(self.ctx, where)
             for sc in ([scope] if scope is not None and not isinstance(scope, (list, tuple)) else (scope or [])):
                 for u in unread_functions(self.ctx, Where(tuple(where), sc, sc.node)):
